@@ -25,6 +25,7 @@ type common struct {
 	n    int
 	tier string
 	out  string
+	skip int // cases [0, skip) are generated (to keep the stream deterministic) but not run
 }
 
 func parseCommon(name string, args []string, extra func(fs *flag.FlagSet)) (*common, *flag.FlagSet) {
@@ -34,6 +35,7 @@ func parseCommon(name string, args []string, extra func(fs *flag.FlagSet)) (*com
 	fs.IntVar(&c.n, "n", 50, "number of cases")
 	fs.StringVar(&c.tier, "tier", "quick", "quick|thorough")
 	fs.StringVar(&c.out, "out", "-", "output file (JSON lines), - for stdout")
+	fs.IntVar(&c.skip, "skip", 0, "do not run the first k cases (continuation after a crash)")
 	if extra != nil {
 		extra(fs)
 	}
